@@ -100,6 +100,8 @@ def handler_prog(draw, p: Profile, nb: int, level: int, maxdepth: int, is_async:
             ops.append(op)
         elif k == 'awaitall':
             ops.append(['awaitall'])
+    if getattr(p, 'twin', 0) and is_async and level < maxdepth and not wildcard and chance(draw, p.twin):
+        ops.insert(draw(st.integers(0, len(ops))), ['twin', draw(st.integers(0, nb - 1))])
     if p.fwdreplica and nb > 1 and chance(draw, p.fwdreplica):
         ops.insert(draw(st.integers(0, len(ops))), ['fwdreplica', draw(st.integers(0, nb - 1))])
     if p.hredisp and chance(draw, p.hredisp):
